@@ -257,6 +257,9 @@ mut("M121", "conn.go", "	if c.bdatStatus == nil && c.server.LMTP {", "	if c.bdat
 mut("M122", "conn.go", "		if err := c.conn.SetReadDeadline(time.Now().Add(c.server.ReadTimeout)); err != nil {", "		if err := c.conn.SetReadDeadline(time.Now().Add(c.server.ReadTimeout)); err == nil {", ["C19", "C04"], "a-line-returned-was-taken-from-the-stream", note="with a read timeout configured an empty line is made up instead of reading one (operator mutant)")
 mut("M123", "conn.go", "	if c.server.MaxLineLength > 0 && len(line) > c.server.MaxLineLength {", "	if c.server.MaxLineLength >= 0 && len(line) > c.server.MaxLineLength {", ["C19"], "a-line-that-was-read-is-refused-for-its-length-only-beyond-a-configured-limit", note="without a configured limit every line is refused as too long (operator mutant)")
 mut("M124r", "conn.go", "				if c := b[i]; (c < ' ' && c != '\\t') || c == 0x7f {\n					b[i] = '?'", "				if c := b[i]; (c <= ' ' && c != '\\t') || c == 0x7f {\n					b[i] = '?'", ["C04"], "replyText/", note="blanks behind the first control character are replaced too (operator mutant; not property-breaking by itself, pins the contract)")
+mut("M133", "conn.go", "			case 0x01 <= char && char <= 0x09 ||", "			case 0x01 <= char && char < 0x09 ||", ["C11"], "utf8-addr-xtext-hexpoints-vs-rfc6533", note="a well-formed \\x{09} is refused (operator mutant in a function behind a stub; bounded stand-in)")
+mut("M134", "conn.go", "			case 0x1000 <= char && char <= 0xD7FF:", "			case 0x1000 <= char || char <= 0xD7FF:", ["C11"], "utf8-addr-xtext-hexpoints-vs-rfc6533", note="surrogate hexpoints are accepted (operator mutant in a function behind a stub; bounded stand-in)")
+mut("M135", "conn.go", "	c.writeResponse(421, EnhancedCode{4, 4, 5}, \"Too busy. Try again later.\")\n	c.Close()", "	c.writeResponse(421, EnhancedCode{4, 4, 5}, \"Too busy. Try again later.\")", ["C08"], "a-rejected-connection-is-answered-421-and-given-up", note="Reject answers 421 but keeps the connection (operator mutant)")
 # ---------------------------------------------------------------- client.go
 mut("M124", "client.go", "		_, _, err := d.c.readResponse(250)\n		d.c.rcpts = nil\n		if err != nil {\n			return err\n		}", "		_, _, err := d.c.readResponse(250)\n		d.c.rcpts = nil\n		if err == nil {\n			return err\n		}", ["C16", "C17"], "close-returns-the-servers-verdict-on-the-message", note="the server's refusal of the message is swallowed by Close (operator mutant found by tools/automut.py)")
 mut("M125", "client.go", "		if err = c.Rcpt(addr, nil); err != nil {\n			return err\n		}\n	}\n	w, err := c.Data()", "		if err = c.Rcpt(addr, nil); err == nil {\n			return err\n		}\n	}\n	w, err := c.Data()", ["C16"], "success-means-the-message-was-written-and-its-writer-closed", note="SendMail reports success after the first accepted recipient without sending anything (operator mutant)")
@@ -266,6 +269,8 @@ mut("M128", "client.go", "	if _, _, err := c.cmd(250, \"RSET\"); err != nil {\n	
 mut("M129", "client.go", "	c.helloError = nil\n\n	c.rcpts = nil\n	return nil", "	c.helloError = nil\n\n	return nil", ["C18"], "a-reset-transaction-leaves-no-recipients-behind", note="Reset keeps the LMTP recipients of the aborted transaction (operator mutant)")
 mut("M130", "client.go", "	_, _, err := c.cmd(221, \"QUIT\")\n	if err != nil {\n		return err\n	}", "	_, _, err := c.cmd(221, \"QUIT\")\n	if err == nil {\n		return err\n	}", ["C17"], "a-refused-quit-is-reported", note="Quit swallows the server's refusal (operator mutant)")
 mut("M131", "client.go", "	if err != nil {\n		c.greetError = err\n		c.text.Close()\n	}", "	if err != nil {\n		c.text.Close()\n	}", ["C15", "C17"], "a-refused-greeting-is-an-error", note="a refused greeting is reported as success (operator mutant)")
+mut("M136", "client.go", "	c := NewClient(conn)\n	c.lmtp = true\n	return c", "	c := NewClient(conn)\n	return c", ["C18"], "an-lmtp-client-speaks-lmtp", note="NewClientLMTP returns a plain SMTP client (operator mutant; the suite does not notice)")
+mut("M137", "data.go", "	return err.Code/100 == 4", "	return err.Code/100 != 4", ["C17"], "the-class-of-the-code-decides", note="Temporary() inverted (operator mutant)")
 mut("M111", "client.go", "	if _, ok := c.ext[\"SIZE\"]; ok && opts != nil && opts.Size != 0 {", "	if _, ok := c.ext[\"SIZE\"]; ok && opts != nil && opts.Size > 1 {", ["C14"], "every-requested-and-offered-option-is-rendered", note="SIZE=1 is not rendered")
 mut("M104", "client.go", "		if resp == nil {\n			break\n		}\n		resp64 = make([]byte, encoding.EncodedLen(len(resp)))", "		if len(resp) == 0 {\n			break\n		}\n		resp64 = make([]byte, encoding.EncodedLen(len(resp)))", ["C09"], "success-means-the-server-said-235", note="client stops the AUTH exchange on an empty (non-nil) response and reports success")
 mut("M30", "client.go", "	if d.closed {\n		return fmt.Errorf(\"smtp: data writer closed twice\")\n	}\n	d.closed = true\n", "	if d.closed {\n		return fmt.Errorf(\"smtp: data writer closed twice\")\n	}\n", ["C16"], "always-closed-afterwards", note="dataCloser never marked closed (also regression of fix 755bba6)")
